@@ -1092,7 +1092,19 @@ class Effects:
                 else:
                     out |= prov if prov else {("unknown", f"{ci.name if ci else '?'}.{r[1]}")}
             elif r[0] == "nparam":
-                out.add(r)
+                # a nested function called directly: its parameter is the argument of this call
+                if r[1] == callee.short and isinstance(site, ast.Call) and callee.parent is not None and partial_call is None:
+                    if binding is None:
+                        binding = self._binding(caller, site, callee, recv, partial_call)
+                    arg = binding.get(r[2])
+                    if isinstance(arg, ast.AST):
+                        out |= self.roots_of(caller, arg)
+                    elif arg is None and r[2] not in binding.get("__unbound__", ()) and callee.param_default(r[2]) is not None:
+                        out.add(CONST)
+                    else:
+                        out.add(r)
+                else:
+                    out.add(r)
             else:
                 out.add(r)
         return frozenset(out)
